@@ -174,6 +174,7 @@ def all_cases():
     # cross-file ambiguity: the definition referenced from main (l1) exists in lib and is duplicated in lib
     for how in LAYOUTS:
         yield ("main", "duplicate definition of l1 in the imported file", None, MAIN.index("l1"), "notunique-cross", how)
+        yield ("string", "duplicate definition of l1 in the file imported by a string model", None, MAIN.index("l1"), "notunique-cross-string", how)
 
 
 def work(arg):
@@ -184,6 +185,8 @@ def work(arg):
         with watchdog(20):
             if kind.startswith("notunique-builtin"):
                 ok, obs = run_builtin(how, kind.split(":")[1])
+            elif kind == "notunique-cross-string":
+                ok, obs = run_cross(how, True)
             elif kind == "notunique-cross":
                 ok, obs = run_cross(how)
             else:
@@ -200,7 +203,9 @@ def work(arg):
     return u
 
 
-def run_cross(how):
+def run_cross(how, string_main=False):
+    if string_main:
+        return run_cross_string(how)
     from textx import metamodel_from_str
     from textx.exceptions import TextXError
     from textx.scoping.providers import PlainNameImportURI
@@ -227,6 +232,40 @@ def run_cross(how):
         got = (os.path.basename(e.filename) if e.filename else None, e.line, e.col)
         obs["message"] = e.message[:80]
     exp = ("main.m", line, col)
+    obs["expected"], obs["observed"] = exp, got
+    return got == exp, obs
+
+
+def run_cross_string(how):
+    """the MAIN model is given as a string (no file name) and imports lib.m by absolute path; l1 is defined twice in lib.m and referenced from
+    the string: the 'not unique' error is located at the reference, i.e. in the string (file name None)"""
+    from textx import metamodel_from_str
+    from textx.exceptions import TextXError
+    from textx.scoping.providers import PlainNameImportURI
+
+    d = os.path.join(core.rundir(), "c28xs-%d" % os.getpid())
+    os.makedirs(d, exist_ok=True)
+    mm = metamodel_from_str(GRAMMAR)
+    mm.register_scope_providers({"*.*": PlainNameImportURI()})
+    lib_text, ls = render(['def', 'l1', 'def', 'l1', 'def', 'l2'], how)
+    with open(os.path.join(d, "lib.m"), "w") as f:
+        f.write(lib_text)
+    toks = list(MAIN)
+    toks[1] = '"%s"' % os.path.join(d, "lib.m")
+    main_text, ms = render(toks, how)
+    line, col = linecol(main_text, ms[toks.index("l1")])
+    obs = {"where": "string main importing lib.m", "injection": "l1 defined twice in lib.m, referenced from the string", "layout": how, "text": main_text.replace(d, "<dir>")}
+    try:
+        mm.model_from_str(main_text)
+        obs["observed"] = "loaded"
+        return False, obs
+    except TextXError as e:
+        got = (os.path.basename(e.filename) if e.filename else None, e.line, e.col)
+        obs["message"] = e.message[:80]
+    except Exception as e:
+        obs["observed"] = "%s: %s" % (type(e).__name__, str(e)[:100])
+        return False, obs
+    exp = (None, line, col)
     obs["expected"], obs["observed"] = exp, got
     return got == exp, obs
 
@@ -275,6 +314,8 @@ def run(ctx):
 def replay(p):
     if p["kind"].startswith("notunique-builtin"):
         return run_builtin(p["layout"], p["kind"].split(":")[1])
+    if p["kind"] == "notunique-cross-string":
+        return run_cross(p["layout"], True)
     if p["kind"] == "notunique-cross":
         return run_cross(p["layout"])
     r = run_case(p["where"], p["label"], p["tokens"], p["idx"], p["kind"], p["layout"], None)
